@@ -10,6 +10,7 @@ import traceback
 HANDLERS = {
     "timer_py": ("harness.py.timer_cmd", "run"),
     "timer_emu": ("harness.py.timer_cmd", "run_emu"),
+    "regs_py": ("harness.py.regs_cmd", "run"),
 }
 
 
